@@ -36,6 +36,7 @@ theorem fold_push_nil (g : γ) (ps : List (ν × γ)) (hp : ∀ p ∈ ps, p.2 = 
     rw [fold_push_single g ps (fun q hq => hp q (by simp [hq]))]
     simp
 
+omit [DecidableEq ν] in
 /-- the shared map when `g` is the only matching group anywhere -/
 theorem sharedListCore_single (i : CoreIn ν γ) (g : γ) (h1 : ∀ t ∈ i.localShared, t = g) (h2 : ∀ p ∈ i.fedShared, p.2 = g) :
     sharedListCore i =
